@@ -3,6 +3,7 @@ CONSTANTS
   Rec = {1, 2, 3, 4, 5, 6, 7, 8, 9, 10, 11, 12}
   Thread = {1, 2, 3}
   Orig = {1, 2}
+  MaxNest = 2
   Deviations = {}
   Depth = 60
 SPECIFICATION GenSpec
